@@ -11,7 +11,13 @@
      n_first evs    number of closeKnown calls that ran the teardown (did not answer ErrClosedConn)
      has_closed pre a Disconnected() call or a cancellation of the parent context occurred in the prefix pre
                     (that is when netmc.Closed(c) answers true)
-     handled evs    numbers of the incoming packets for which HandlePacket was entered, in order *)
+     handled evs    numbers of the incoming packets for which HandlePacket was entered, in order
+   [dops] is what the installed handler's Disconnected() does with ITS OWN connection while the teardown
+   runs (WritePacket/Write/BufferPacket/BufferPayload, CloseWith, a close guarded by "if !Closed(c)" - the
+   last also stands for the player/backend pairing, where the other connection's teardown comes back to
+   this one); [guarded] excludes only an unguarded Close() from there.
+     dop_results evs  what those calls answered;  stuck_ev / c_stuck  a goroutine re-entered closeOnce.Do
+                      from inside its own body and blocks forever (so the teardown never finishes) *)
 From Coq Require Import List Bool Arith.
 From Verif Require Import Base.Conc Model.ConnClose Proofs.C44.
 Import ListNotations.
@@ -22,8 +28,9 @@ Import ListNotations.
    and as soon as any closeKnown call (Close, CloseUnknown, closeOnWriteErr, the read loop's deferred
    close, CloseWith's deferred Close) has returned it has run - also when the parent context was
    cancelled first, which makes Closed(c) true without any teardown. *)
-Theorem C44_teardown_exactly_once : forall script gs sched,
-  let r := run (program impl_cfg script gs) sched cinit in
+Theorem C44_teardown_exactly_once : forall script gs dops sched,
+  forallb guarded dops = true ->
+  let r := run (program impl_cfg script gs) sched (cinit_d dops) in
   let s := final_state r in
   let evs := events r in
   n_disc evs <= 1
@@ -36,8 +43,9 @@ Print Assumptions C44_teardown_exactly_once.
 (* "later writes report the connection as closed": wherever a write starts in the trace, its Closed(c)
    check sees "closed" exactly when the teardown (or a parent-context cancel) happened before it, and then the very next event is that
    write returning ErrClosedConn (nothing is sent, nothing else happens in between) *)
-Theorem C44_writes_after_close_fail : forall script gs sched,
-  let r := run (program impl_cfg script gs) sched cinit in
+Theorem C44_writes_after_close_fail : forall script gs dops sched,
+  forallb guarded dops = true ->
+  let r := run (program impl_cfg script gs) sched (cinit_d dops) in
   let evs := events r in
   forall pre t b post, evs = pre ++ EWStart t b :: post ->
     b = has_closed pre /\ (b = true -> exists post', post = EWRes t WClosed :: post').
@@ -47,8 +55,9 @@ Print Assumptions C44_writes_after_close_fail.
 (* "a panic inside a packet handler is contained without ending the process": no schedule ends the
    process; packets are handled in order without gaps (a panic does not skip or repeat one); every panic
    raised by a handler was recovered by the loop's recover frame *)
-Theorem C44_panic_contained : forall script gs sched,
-  let r := run (program impl_cfg script gs) sched cinit in
+Theorem C44_panic_contained : forall script gs dops sched,
+  forallb guarded dops = true ->
+  let r := run (program impl_cfg script gs) sched (cinit_d dops) in
   let s := final_state r in
   let evs := events r in
   died evs = false /\ c_died s = false
@@ -57,17 +66,56 @@ Theorem C44_panic_contained : forall script gs sched,
 Proof. exact panic_contained. Qed.
 Print Assumptions C44_panic_contained.
 
+(* "closed ... however many times": the teardown handler may itself touch its connection.  Because the
+   context is cancelled BEFORE the socket is closed and Disconnected() runs, every such call sees
+   Closed(c) = true: writes and CloseWith answer ErrClosedConn, guarded closes are skipped; none re-enters
+   the once-body, nothing ever gets stuck, and every closeKnown call returns *)
+Theorem C44_teardown_reentrancy_safe : forall script gs dops sched,
+  forallb guarded dops = true ->
+  let r := run (program impl_cfg script gs) sched (cinit_d dops) in
+  let s := final_state r in
+  let evs := events r in
+  c_stuck s = false /\ stuck_ev evs = false
+  /\ dop_results evs = (if c_closed s then map res_of dops else [])
+  /\ n_first evs = n_disc evs.
+Proof. exact teardown_reentrancy_safe. Qed.
+Print Assumptions C44_teardown_reentrancy_safe.
+
+(* model fact: with the cancel moved AFTER the teardown (defer c.cancelCtx() in the once-body) a CloseWith
+   from Disconnected() does not see "closed", writes to the closed socket, fails and calls Close():
+   closeOnce.Do is re-entered from inside its body - no Close call ever returns *)
+Theorem C44_with_cancel_after_teardown_reentrant_close_never_returns :
+  exists script gs dops sched,
+    forallb guarded dops = true /\
+    let r := run (program (mkCfg true true false false) script gs) sched (cinit_d dops) in
+    c_stuck (final_state r) = true /\ stuck_ev (events r) = true
+    /\ has_ret (events r) = false
+    /\ dop_results (events r) = [].
+Proof. exact with_cancel_after_teardown_reentrant_close_never_returns. Qed.
+Print Assumptions C44_with_cancel_after_teardown_reentrant_close_never_returns.
+
+(* model fact about the code as it is (observed on the real code too): an UNGUARDED Close() - or Flush(),
+   which has no Closed check - called by Disconnected() on its own connection blocks on sync.Once forever;
+   this is why the premise [guarded dops] is there and why real handlers guard with "if !Closed(c)" *)
+Theorem C44_unguarded_close_from_teardown_never_returns :
+  exists script gs sched,
+    let r := run (program impl_cfg script gs) sched (cinit_d [DWrite; DRawClose]) in
+    c_stuck (final_state r) = true /\ has_ret (events r) = false
+    /\ dop_results (events r) = [DClosed].
+Proof. exact unguarded_close_from_teardown_never_returns. Qed.
+Print Assumptions C44_unguarded_close_from_teardown_never_returns.
+
 (* what the two guards are needed for (model facts; the harness mutants "remove closeOnce" and "drop the
    recover" show the same on the real code) *)
 Theorem C44_without_once_teardown_runs_twice :
   exists script gs sched,
-    n_disc (events (run (program (mkCfg false true false) script gs) sched cinit)) = 2.
+    n_disc (events (run (program (mkCfg false true false true) script gs) sched cinit)) = 2.
 Proof. exact without_once_teardown_runs_twice. Qed.
 Print Assumptions C44_without_once_teardown_runs_twice.
 
 Theorem C44_without_recover_the_process_dies :
   exists script gs sched,
-    let r := run (program (mkCfg true false false) script gs) sched cinit in
+    let r := run (program (mkCfg true false false true) script gs) sched cinit in
     died (events r) = true /\ c_died (final_state r) = true
     /\ handled (events r) = [0; 1]
     /\ n_disc (events r) = 0.
@@ -90,7 +138,7 @@ Proof. exact demo_run. Qed.
    once the parent context is cancelled no close path runs the teardown any more *)
 Theorem C44_with_early_exit_teardown_never_runs :
   exists script gs sched,
-    let r := run (program (mkCfg true true true) script gs) sched cinit in
+    let r := run (program (mkCfg true true true true) script gs) sched cinit in
     complete (remaining r) = true /\ n_disc (events r) = 0 /\ c_closed (final_state r) = false.
 Proof. exact with_early_exit_teardown_never_runs. Qed.
 Print Assumptions C44_with_early_exit_teardown_never_runs.
